@@ -285,6 +285,7 @@ def run_shard(spec, acc):
     elif k == "diagram":
         diagram_sequences(acc)
         diagram_reconfigured(acc)
+        diagram_alias_of_an_earlier_diagram(acc)
     elif k == "entry":
         entry_points(acc)
     else:
@@ -375,6 +376,38 @@ def diagram_reconfigured(acc):
                 os.unlink(good)
 
 
+def diagram_alias_of_an_earlier_diagram(acc):
+    """ONE DiagramRule (and one PumlParser) reads a second diagram after a first one; the first declares an alias, the
+    second uses the same token as a plain component name - a module the architecture does not have: no verdict."""
+    from pytestarch import DiagramRule
+    from pytestarch.diagram_extension.diagram_parser import PumlParser
+
+    from ..monitors_more import register_puml
+
+    d = os.path.join(trees.scratch_dir(), "puml13d")
+    os.makedirs(d, exist_ok=True)
+    first, second = os.path.join(d, "first.puml"), os.path.join(d, "second.puml")
+    for alias in ("zz", "ui", "b2"):
+        open(first, "w").write(f"@startuml\n[a] as {alias}\n{alias} --> [b]\n@enduml\n")
+        open(second, "w").write(f"@startuml\n[{alias}] --> [b]\n@enduml\n")
+        register_puml(first, ["a", "b"], [("a", "b")])
+        register_puml(second, [alias, "b"], [(alias, "b")])
+        for mode in (True, False):
+            r = DiagramRule(should_only_rule=mode).from_file(Path(first)).with_base_module("r")
+            HUB.case = {"kind": "diagram_alias_leak", "alias": alias, "should_only": mode}
+            run(r, ev())
+            r.from_file(Path(second))
+            run(r, ev())
+            acc.evaluated(2)
+            acc.count("diagram_rules_pointed_to_a_diagram_that_uses_an_earlier_alias_as_a_name")
+        parser = PumlParser()
+        for f in (first, second, first):
+            try:
+                parser.parse(f)  # judged by the parse monitor (C06) - here only driven
+            except Exception:  # noqa: BLE001
+                pass
+
+
 def entry_points(acc):
     from pytestarch import get_evaluable_architecture
 
@@ -388,6 +421,20 @@ def entry_points(acc):
             "external_exclusions": ("os",),
             "regex_external_exclusions": ("os$",),
         }
+        # the same contradictions spelled with degenerate values: a tuple that only holds the empty pattern (an unset setting
+        # split on commas) is a tuple of patterns all the same
+        degenerate = [
+            {"exclusions": ("",), "regex_exclusions": (".*nothing.*",)},
+            {"exclusions": ("", ""), "regex_exclusions": ("",)},
+            {"external_exclusions": ("",), "regex_external_exclusions": ("os$",), "exclude_external_libraries": False},
+            {"external_exclusions": ("",)},
+            {"regex_external_exclusions": ("",)},
+            {"external_exclusions": ("",), "exclude_external_libraries": True},
+        ]
+        for kw in degenerate:
+            for mp in (root, os.path.join(root, "sub")):
+                _entry(get_evaluable_architecture, root, mp, dict(kw), acc)
+                acc.count("entry_point_calls_with_degenerate_option_values")
         for mask in range(16):
             for excl_ext in (True, False):
                 # the last two: directories outside root_path whose spelling STARTS with root_path ('..' components)
@@ -785,6 +832,8 @@ def replay(case, acc):
         diagram_sequences(acc)
     elif k == "diagram_reconfigured":
         diagram_reconfigured(acc)
+    elif k == "diagram_alias_leak":
+        diagram_alias_of_an_earlier_diagram(acc)
     elif k == "entry":
         entry_points(acc)
     else:
